@@ -6,3 +6,16 @@ add("C01", "exploration", "property-based testing (proptest): generated DAG fact
     "Search over generated acyclic graphs, id assignments, supply orders and construction paths against an independent transitive-closure model; all ordered pairs for child_of/parent_of. Finds counterexamples, does not prove absence.",
     "Trusts the reference model (BFS closure, ~40 lines) and the own binary encoder / JAX renderer; bounds: <=24 terms quick, <=90 thorough.",
     "DESIGN.md section 4, C01")
+
+add("C02", "exploration", "property-based testing (proptest): generated annotation facts x construction paths vs set-union inheritance model",
+    "Search over generated graphs and annotation fact sets (shared id pool across kinds, links on inner nodes and on ancestor/descendant chains, repeated facts, empty records, shuffled call order) through every construction path against inheritance computed on the model closure.",
+    "Trusts the reference model and own encoder/renderer; bounds: <=20 terms quick / 70 thorough, <=8 records per kind.",
+    "DESIGN.md section 4, C02")
+add("C03", "exploration", "property-based testing (proptest): IC vs -ln(n/N) in f64, exact range and monotonicity checks",
+    "Search over generated ontologies with different totals per kind; value compared with an f64 reference within 1e-5, zero rule, finiteness, non-negativity and ancestor->descendant monotonicity checked exactly.",
+    "f32 vs f64 tolerance 1e-5 relative; bounds as C02 with <=10 records per kind.",
+    "DESIGN.md section 4, C03")
+add("C20", "exploration", "exhaustive enumeration of the 10^7 id space + property-based string generation vs reference parser",
+    "The id <-> text/bytes bijection is enumerated completely for all 10^7 ids (plus borders); parsing of arbitrary text is searched with structured string generators against a hand-written reference grammar, panics are failures.",
+    "Reference grammar = Rust u32 FromStr grammar after the 3-byte prefix; string space sampled, not exhausted.",
+    "DESIGN.md section 4, C20")
